@@ -1,9 +1,9 @@
 CONSTANTS
-  SeedIds = {1, 2, 3}
+  SeedIds = {1, 2, 3, 4, 5}
   Focus = {"Clone","SetDtype","SetType","SetDim","SetShape","MetaPut","ValMetaPut","SetConst","SetName","NodeMetaPut","AttrPut","AttrDel","ReplaceInput","ResizeOutputs","GRemove","GraphMetaPut","IOPop","IOAppend","InitDel"}
   MaxGraphs = 4
   MaxDepth = 3
-  EditVals = {1, 5, 8, 9, 10, 11, 12}
+  EditVals = {1, 5, 6, 7, 8, 9, 10, 11, 12}
   EditNodes = {1, 2, 4, 5}
   EmitOn = TRUE
 INIT Init
